@@ -145,7 +145,7 @@ func (s *Server) onConn(c net.Conn) {
 	cc.executor.userType = cc.getNamespace().userProperties[cc.executor.user].OtherProperty
 
 	// added into time wheel
-	s.tw.Add(s.sessionTimeout, cc, cc.Close)
+	s.tw.Add(s.sessionTimeout, cc, cc.closeByIdleTimer)
 	_ = s.manager.statistics.generalLogger.Notice("Connected - conn_id=%d, ns=%s, %s@%s/%s, capability: %d",
 		cc.c.ConnectionID,
 		cc.executor.namespace,
